@@ -208,53 +208,6 @@ func newExec(t *testing.T) func([]string) string {
 
 // ---- generator -------------------------------------------------------------------------------------
 
-var v4bases = []string{"10.0.0.0/8", "10.1.0.0/16", "10.1.2.0/24", "192.168.0.0/16", "172.16.0.0/12", "100.64.0.0/10"}
-var v6bases = []string{"fd00::/8", "fd00:1::/32", "2001:db8::/32", "fd00:1:2:3::/64"}
-var groupUniverse = []string{"a", "b", "c", "dd", "admins", "x"}
-
-func basePrefix(r *hlib.Rand, v6 bool) netip.Prefix {
-	if v6 {
-		return netip.MustParsePrefix(hlib.Pick(r, v6bases...))
-	}
-	return netip.MustParsePrefix(hlib.Pick(r, v4bases...))
-}
-
-// inside returns an address assignment inside p whose length is >= p.Bits() (delta >= 0) or shorter (delta < 0).
-func inside(r *hlib.Rand, p netip.Prefix, delta int) netip.Prefix {
-	max := p.Addr().BitLen()
-	b := p.Masked().Addr().AsSlice()
-	rb := r.Bytes(len(b))
-	for i := range b {
-		keep := 0
-		if i*8+8 <= p.Bits() {
-			keep = 0xff
-		} else if i*8 < p.Bits() {
-			keep = 0xff << (8 - (p.Bits() - i*8)) & 0xff
-		}
-		b[i] = b[i]&byte(keep) | rb[i]&^byte(keep)
-	}
-	b[len(b)-1] |= 1 // never the zero address
-	a, _ := netip.AddrFromSlice(b)
-	bits := p.Bits() + delta
-	if bits < 0 {
-		bits = 0
-	}
-	if bits > max {
-		bits = max
-	}
-	return netip.PrefixFrom(a, bits)
-}
-
-func subset(r *hlib.Rand, xs []string) []string {
-	var out []string
-	for _, x := range xs {
-		if r.Bool() {
-			out = append(out, x)
-		}
-	}
-	return out
-}
-
 type caInfo struct {
 	c    cert.Certificate // as stored (real decode or stub)
 	src  string
@@ -279,52 +232,22 @@ func (g *genState) op(format string, a ...any) {
 	g.nops++
 }
 
-func sec(s int64) time.Time { return time.Unix(s, 0) }
-
-// window picks a validity window around the synctest epoch.
-func (g *genState) caWindow() (time.Time, time.Time) {
-	r := g.r
-	nb := int64(cl.Epoch) - int64(hlib.Pick(r, 10, 3600, 86400, 86400*365))
-	na := int64(cl.Epoch) + int64(hlib.Pick(r, 10, 3600, 86400, 86400*365))
-	switch r.Intn(12) {
-	case 0: // expired when added
-		na = int64(cl.Epoch) - int64(hlib.Pick(r, 1, 5, 3600))
-		if nb > na {
-			nb = na - 10
-		}
-	case 1: // not yet valid
-		nb = int64(cl.Epoch) + int64(hlib.Pick(r, 1, 5))
-	case 2: // expires exactly now
-		na = int64(cl.Epoch)
-	}
-	return sec(nb), sec(na)
-}
-
-func (g *genState) caNets(v6ok bool) []netip.Prefix {
-	r := g.r
-	var out []netip.Prefix
-	for i, n := 0, hlib.Pick(r, 0, 0, 1, 1, 2, 3); i < n; i++ {
-		out = append(out, basePrefix(r, v6ok && r.Chance(1, 3)))
-	}
-	return out
-}
-
 func (g *genState) addRealCA() {
 	r := g.r
 	version := hlib.Pick(r, 1, 2, 2)
 	curve := cert.Curve(hlib.Pick(r, 0, 0, 1))
 	key := cl.NewSignKey(r, curve)
-	nb, na := g.caWindow()
+	nb, na := cl.CAWindow(g.r)
 	f := cl.Fields{Version: version, Curve: int(curve), IsCA: true, NotBefore: nb, NotAfter: na,
-		Name: fmt.Sprintf("ca%d", len(g.cas)), Networks: g.caNets(version == 2), Unsafe: g.caNets(version == 2),
+		Name: fmt.Sprintf("ca%d", len(g.cas)), Networks: cl.CANets(g.r, version == 2), Unsafe: cl.CANets(g.r, version == 2),
 		PublicKey: key.Pub}
 	if r.Bool() {
-		f.Groups = subset(r, groupUniverse)
+		f.Groups = cl.Subset(r, cl.GroupUniverse)
 	}
 	mode := r.Intn(12)
 	if mode == 0 {
 		f.IsCA = false // refused: not a CA (needs a network to decode)
-		f.Networks = []netip.Prefix{inside(r, basePrefix(r, false), 8)}
+		f.Networks = []netip.Prefix{cl.Inside(r, cl.BasePrefix(r, false), 8)}
 	}
 	var raw []byte
 	if mode == 1 {
@@ -351,15 +274,15 @@ func (g *genState) stubFp() string {
 
 func (g *genState) addStubCA() {
 	r := g.r
-	nb, na := g.caWindow()
+	nb, na := cl.CAWindow(g.r)
 	if r.Chance(1, 4) { // sub-second bounds exist only outside decoded certificates
 		nb = nb.Add(time.Duration(r.Intn(1000000000)))
 		na = na.Add(time.Duration(r.Intn(1000000000)))
 	}
 	f := cl.Fields{Version: hlib.Pick(r, 1, 2, 2, 0, 3), Curve: hlib.Pick(r, 0, 0, 0, 1, 2), IsCA: !r.Chance(1, 10), NotBefore: nb,
-		NotAfter: na, Name: "stubca", Networks: g.caNets(true), Unsafe: g.caNets(true), PublicKey: r.Bytes(4)}
+		NotAfter: na, Name: "stubca", Networks: cl.CANets(g.r, true), Unsafe: cl.CANets(g.r, true), PublicKey: r.Bytes(4)}
 	if r.Bool() {
-		f.Groups = subset(r, append([]string{""}, groupUniverse...))
+		f.Groups = cl.Subset(r, append([]string{""}, cl.GroupUniverse...))
 	}
 	s := &cl.Stub{F: f, Fp: g.stubFp(), FpErr: r.Chance(1, 20), SigOK: !r.Chance(1, 10)}
 	g.op("addca stub %s %s %s", f.Desc(), fpTok(s), hlib.B(s.SigOK))
@@ -368,113 +291,11 @@ func (g *genState) addStubCA() {
 	}
 }
 
-// leafFields draws leaf fields relative to a CA: mostly inside its constraints, with single perturbations.
-func (g *genState) leafFields(ca *caInfo, real bool) cl.Fields {
-	r := g.r
-	version := hlib.Pick(r, 1, 2, 2)
-	cf := ca.f
-	f := cl.Fields{Version: version, Curve: cf.Curve, IsCA: false, Issuer: ca.fp, Name: fmt.Sprintf("leaf%d", r.Intn(1000))}
-	perturb := r.Intn(16) // which single rule to break (most values: none)
-	// window
-	nb, na := cf.NotBefore.Unix()+int64(hlib.Pick(r, 0, 0, 1, 100)), cf.NotAfter.Unix()-int64(hlib.Pick(r, 0, 0, 1, 100))
-	if nb > na {
-		nb, na = cf.NotBefore.Unix(), cf.NotAfter.Unix()
-	}
-	if cf.NotBefore.Nanosecond() != 0 && nb == cf.NotBefore.Unix() {
-		nb++ // whole seconds inside a sub-second CA window
-	}
-	switch perturb {
-	case 0:
-		na = cf.NotAfter.Unix() + int64(hlib.Pick(r, 1, 1, 60))
-	case 1:
-		nb = cf.NotBefore.Unix() - int64(hlib.Pick(r, 1, 1, 60))
-	}
-	f.NotBefore, f.NotAfter = sec(nb), sec(na)
-	if !real && r.Chance(1, 4) {
-		f.NotBefore = f.NotBefore.Add(time.Duration(r.Intn(1000000000)))
-		f.NotAfter = f.NotAfter.Add(-time.Duration(r.Intn(1000000000)))
-	}
-	// groups
-	if len(cf.Groups) > 0 {
-		f.Groups = subset(r, cf.Groups)
-	} else if r.Bool() {
-		f.Groups = subset(r, groupUniverse)
-	}
-	if perturb == 2 {
-		f.Groups = append(f.Groups, hlib.Pick(r, "zz", "A", "aa"))
-	}
-	// networks
-	v6ok := version == 2
-	pick := func(cas []netip.Prefix, breakIt bool) netip.Prefix {
-		var base netip.Prefix
-		if len(cas) > 0 {
-			base = cas[r.Intn(len(cas))]
-			if base.Addr().Is6() && !v6ok {
-				for _, c := range cas {
-					if c.Addr().Is4() {
-						base = c
-					}
-				}
-				if base.Addr().Is6() {
-					base = basePrefix(r, false)
-				}
-			}
-		} else {
-			base = basePrefix(r, v6ok && r.Chance(1, 3))
-		}
-		if breakIt {
-			switch r.Intn(3) {
-			case 0:
-				return inside(r, base, -1-r.Intn(3)) // shorter than the CA range
-			case 1: // outside every range
-				if base.Addr().Is4() {
-					return netip.MustParsePrefix(hlib.Pick(r, "11.0.0.1/8", "9.255.255.255/32", "193.1.1.1/24"))
-				}
-				return netip.MustParsePrefix(hlib.Pick(r, "fe00::1/8", "2002::1/64"))
-			default: // neighbour just past the range's last address: flip the last covered bit
-				if base.Bits() == 0 {
-					return inside(r, base, 0)
-				}
-				b := base.Masked().Addr().AsSlice()
-				b[(base.Bits()-1)/8] ^= 1 << (7 - uint(base.Bits()-1)%8)
-				b[len(b)-1] |= 1
-				a, _ := netip.AddrFromSlice(b)
-				return netip.PrefixFrom(a, base.Addr().BitLen())
-			}
-		}
-		return inside(r, base, hlib.Pick(r, 0, 0, 1, 8, 200))
-	}
-	nn := hlib.Pick(r, 1, 1, 1, 2, 3)
-	if version == 1 {
-		nn = hlib.Pick(r, 1, 1, 2)
-	}
-	for i := 0; i < nn; i++ {
-		f.Networks = append(f.Networks, pick(cf.Networks, perturb == 3 && i == nn-1))
-	}
-	has4, has6 := false, false
-	for _, n := range f.Networks {
-		has4 = has4 || n.Addr().Is4()
-		has6 = has6 || n.Addr().Is6()
-	}
-	for i, nu := 0, hlib.Pick(r, 0, 0, 1, 2); i < nu; i++ {
-		u := pick(cf.Unsafe, perturb == 4 && i == nu-1)
-		if real && ((u.Addr().Is4() && !has4) || (u.Addr().Is6() && !has6)) {
-			continue // the decoder's validate would refuse it
-		}
-		f.Unsafe = append(f.Unsafe, u)
-	}
-	if perturb == 5 && !real {
-		f.Curve = 1 - f.Curve%2
-	}
-	f.PublicKey = cl.LeafPub(r, cert.Curve(f.Curve%2))
-	return f
-}
-
 func (g *genState) verifyTimes(f cl.Fields, ca *caInfo) []string {
 	r := g.r
 	nb, na := f.NotBefore, f.NotAfter
 	cands := []time.Time{nb.Add(-time.Second), nb.Add(-1), nb, nb.Add(1), nb.Add(na.Sub(nb) / 2), na.Add(-1), na, na.Add(1),
-		na.Add(time.Second), sec(cl.Epoch), sec(cl.Epoch).Add(500 * time.Millisecond)}
+		na.Add(time.Second), cl.Sec(cl.Epoch), cl.Sec(cl.Epoch).Add(500 * time.Millisecond)}
 	if ca != nil {
 		cands = append(cands, ca.f.NotBefore.Add(-1), ca.f.NotBefore, ca.f.NotAfter, ca.f.NotAfter.Add(1))
 	}
@@ -585,7 +406,7 @@ func (g *genState) unblock() {
 
 func (g *genState) realLeaf(ca *caInfo) {
 	r := g.r
-	f := g.leafFields(ca, true)
+	f := cl.LeafFields(g.r, ca.f, ca.fp, true)
 	key := ca.key
 	if r.Chance(1, 12) {
 		key = cl.NewSignKey(r, ca.key.Curve) // bad signature: right issuer, wrong key
@@ -627,11 +448,11 @@ func (g *genState) stubLeaf(ca *caInfo) {
 	r := g.r
 	var f cl.Fields
 	if ca != nil {
-		f = g.leafFields(ca, false)
+		f = cl.LeafFields(g.r, ca.f, ca.fp, false)
 	} else {
-		nb, na := g.caWindow()
+		nb, na := cl.CAWindow(g.r)
 		f = cl.Fields{Version: 2, NotBefore: nb, NotAfter: na, Issuer: hlib.Pick(r, "", g.stubFp(), "00"), Name: "orphan",
-			Networks: []netip.Prefix{inside(r, basePrefix(r, false), 8)}}
+			Networks: []netip.Prefix{cl.Inside(r, cl.BasePrefix(r, false), 8)}}
 	}
 	switch r.Intn(14) {
 	case 0:
